@@ -167,7 +167,8 @@ def check_C01(tier, seed):
     quick = tier == "quick"
     # Layer B against Layer A: the mechanism model yields exactly the filter of the domain, in order, each once
     run.mc("MechCheck", "mech-exact", constants=dict(G="G12", NV=1, LeafLimit=24 if quick else 49, MaxLeaves=2,
-                                                      MaxNot=1 if quick else 2, NeedNot=False), invariants=("MechEqualsSem",))
+                                                      MaxNot=1 if quick else 2, NeedNot=False, AndLeftTrueNeedsFalseSet=True),
+           invariants=("MechEqualsSem",))
     progs = run.export("GenQuery", "G1-bfs", "PROG", constants=dict(
         G="G12", NV=1, LeafLimit=12 if quick else 49, MaxLeaves=2, MaxNot=1 if quick else 2, NeedNot=False),
         invariants=("Export", "WellFormed"))
@@ -232,7 +233,11 @@ def check_C02(tier, seed):
     rng = qc.rng
     quick = tier == "quick"
     run.mc("MechCheck", "mech-rows", constants=dict(G="G12", NV=2, LeafLimit=12 if quick else 24, MaxLeaves=2,
-                                                     MaxNot=1, NeedNot=False), invariants=("MechEqualsSem",))
+                                                     MaxNot=1, NeedNot=False, AndLeftTrueNeedsFalseSet=True),
+           invariants=("MechEqualsSem", "Mech2EqualsSem"))
+    # stage B2 on and_/or_ trees that mix the pairs of three variables (partial bindings, projected selections)
+    run.mc("MechCheck", "mech-dedup", constants=dict(G="G3v", NV=3, LeafLimit=6, MaxLeaves=3 if quick else 4, MaxNot=0,
+                                                      NeedNot=False, AndLeftTrueNeedsFalseSet=True), invariants=("Mech2EqualsSem",))
     for nv in (2, 3):
         progs = _programs(run, nv, quick, sim_quick=800, sim_full=10000, leaf_quick=9 if nv == 2 else 8,
                           leaf_full=24 if nv == 2 else 16)
@@ -256,7 +261,11 @@ def check_C02(tier, seed):
         for p in progs:
             for _ in range(1 if quick else 2):
                 W, doms = _world_and_doms(rng, nv, quick)
-                qc.add(W, [mk_query(p, doms, declare="random")], [drain_ev()], dump_graph=True)
+                q = mk_query(p, doms, declare="random")
+                # a second object of the same query evaluated with the result caches off: stage B2 of the mechanism
+                # model predicts its exact row sequence (Layer B binding)
+                qc.add(W, [q, copy.deepcopy(q)], [drain_ev(1), {"op": "cfg", "caching": False}, dict(drain_ev(2, eqto=1), b2=True)],
+                       dump_graph=True)
     qc.execute(_nontrivial_rows)
     return run.finish()
 
@@ -278,7 +287,7 @@ def check_C03(tier, seed):
     quick = tier == "quick"
     # Layer B: Not() as a construction-time rewrite (De Morgan, flag toggling, operator table) preserves the complement
     run.mc("MechCheck", "mech-negation", constants=dict(G="G12", NV=1, LeafLimit=16 if quick else 30, MaxLeaves=2, MaxNot=2,
-                                                         NeedNot=True), invariants=("MechEqualsSem",))
+                                                         NeedNot=True, AndLeftTrueNeedsFalseSet=True), invariants=("MechEqualsSem",))
     for nv in (1, 2):
         progs = _programs(run, nv, quick, sim_quick=600, sim_full=8000, leaf_full=30 if nv == 1 else 20)
         if quick:
